@@ -20,9 +20,12 @@ import (
 	"github.com/btcsuite/btcutil/base58"
 	"github.com/multiformats/go-multibase"
 
+	"github.com/trustbloc/sidetree-go/pkg/api/operation"
 	"github.com/trustbloc/sidetree-go/pkg/api/protocol"
 	"github.com/trustbloc/sidetree-go/pkg/document"
 	"github.com/trustbloc/sidetree-go/pkg/encoder"
+	"github.com/trustbloc/sidetree-go/pkg/versions/1_0/doctransformer/doctransformer"
+	"github.com/trustbloc/sidetree-go/pkg/versions/1_0/doctransformer/metadata"
 )
 
 var vbTypes = []string{"Bls12381G2Key2020", "JsonWebKey2020", "EcdsaSecp256k1VerificationKey2019", "X25519KeyAgreementKey2019", "Ed25519VerificationKey2018", "Ed25519VerificationKey2020"}
@@ -271,6 +274,48 @@ func TestVerifBoundedTransform(t *testing.T) {
 		for i := 0; i < 4000; i++ {
 			if !run([]vbKey{{"k1", r.Intn(6), r.Intn(32)}, {"k2", r.Intn(6), r.Intn(32)}}, r.Intn(3), r.Intn(2) == 0) {
 				return
+			}
+		}
+	}
+	// ---- the two "include operations" options of both transformers are independent: the method
+	// metadata lists the published / unpublished operations exactly when the respective option is on
+	for _, incPub := range []bool{false, true} {
+		for _, incUnpub := range []bool{false, true} {
+			for _, which := range []string{"did", "doc"} {
+				mkModel := func() *protocol.ResolutionModel {
+					return &protocol.ResolutionModel{Doc: document.Document{}, RecoveryCommitment: "rc", UpdateCommitment: "uc",
+						PublishedOperations: []*operation.AnchoredOperation{
+							{Type: operation.TypeCreate, UniqueSuffix: "sfx", CanonicalReference: "ref1", TransactionTime: 1, TransactionNumber: 1},
+							{Type: operation.TypeUpdate, UniqueSuffix: "sfx", CanonicalReference: "ref2", TransactionTime: 2, TransactionNumber: 1}},
+						UnpublishedOperations: []*operation.AnchoredOperation{{Type: operation.TypeUpdate, UniqueSuffix: "sfx", TransactionTime: 3}}}
+				}
+				info := protocol.TransformationInfo{document.IDProperty: "did:ex:sfx", document.PublishedProperty: true}
+				var res *document.ResolutionResult
+				var err error
+				if which == "did" {
+					res, err = New(WithIncludePublishedOperations(incPub), WithIncludeUnpublishedOperations(incUnpub)).TransformDocument(mkModel(), info)
+				} else {
+					res, err = doctransformer.New(doctransformer.WithIncludePublishedOperations(incPub), doctransformer.WithIncludeUnpublishedOperations(incUnpub)).TransformDocument(mkModel(), info)
+				}
+				cases++
+				if err != nil {
+					fmt.Printf("BOUNDED-FAIL options-%s-%v-%v transformation failed: %v\n", which, incPub, incUnpub, err)
+					return
+				}
+				mm, _ := res.DocumentMetadata[document.MethodProperty].(document.Metadata)
+				pubE, hasPub := mm[document.PublishedOperationsProperty]
+				unpE, hasUnp := mm[document.UnpublishedOperationsProperty]
+				nPub, nUnp := 0, 0
+				if v, ok := pubE.([]*metadata.PublishedOperation); ok {
+					nPub = len(v)
+				}
+				if v, ok := unpE.([]*metadata.UnpublishedOperation); ok {
+					nUnp = len(v)
+				}
+				if hasPub != incPub || hasUnp != incUnpub || (incPub && nPub != 2) || (incUnpub && nUnp != 1) {
+					fmt.Printf("BOUNDED-FAIL options-%s-%v-%v published operations listed: %v (%d), unpublished listed: %v (%d)\n", which, incPub, incUnpub, hasPub, nPub, hasUnp, nUnp)
+					return
+				}
 			}
 		}
 	}
